@@ -14,6 +14,7 @@
 #include <cstdlib>
 #include <ctime>
 #include <unistd.h>
+#include <sys/time.h>
 
 namespace verif{
 
@@ -37,6 +38,14 @@ inline bool flag_of(int argc,char** argv,const char* key){
   return false;
 }
 
+// watchdog: a run that burns more than cpu_s seconds of CPU (all threads) or does not finish within wall_s seconds is killed by a signal
+// (SIGPROF / SIGALRM) and reported by the driver as a hang. CPU time is used so that a loaded machine does not turn a slow run into an alarm.
+inline void watchdog(long cpu_s,long wall_s){
+  struct itimerval it; it.it_interval.tv_sec=0; it.it_interval.tv_usec=0; it.it_value.tv_sec=cpu_s; it.it_value.tv_usec=0;
+  setitimer(ITIMER_PROF,&it,0);
+  alarm((unsigned)wall_s);
+}
+
 inline int engine_main(int argc,char** argv,Engine& eng){
   setvbuf(stdout,NULL,_IOFBF,1<<16);
   if(argc<2){ fprintf(stderr,"usage: %s run|plan|gen ...\n",argv[0]); return 64; }
@@ -56,7 +65,7 @@ inline int engine_main(int argc,char** argv,Engine& eng){
     int repeat=atoi(arg_of(argc,argv,"--repeat","1").c_str());
     Outcome out;
     // watchdog: a run that does not finish is killed by SIGALRM and reported by the driver as a hang
-    for(int r=0;r<repeat;r++){ alarm(90); out=eng.execute(plan,verbose,ctr,&text); alarm(0); }
+    for(int r=0;r<repeat;r++){ watchdog(120,900); out=eng.execute(plan,verbose,ctr,&text); watchdog(0,0); }
     if(verbose) fputs(text.c_str(),stdout);
     if(out.ok) printf("E %s ok\n",hex64(out.event_hash).c_str());
     else{
@@ -86,9 +95,9 @@ inline int engine_main(int argc,char** argv,Engine& eng){
       if(deadline>0 && (runs&63)==0 && difftime(time(NULL),t0)>deadline) break;
       Json plan=eng.generate(seed,i,prop,tier);
       if(careful){ printf("B %llu\n",(unsigned long long)i); fflush(stdout); }
-      alarm(45);
+      watchdog(60,600);
       Outcome out=eng.execute(plan,false,ctr,NULL);
-      alarm(0);
+      watchdog(0,0);
       if(hashes) printf("H %llu %s\n",(unsigned long long)i,hex64(out.event_hash).c_str());
       runs++; evals+=out.evals; steps+=out.sim_steps; simtime+=out.sim_time; last=i+1;
       if(out.nontrivial){ nontrivial++; shapes.insert(out.shape); }
